@@ -68,7 +68,14 @@ def at(self, j, sg_pos, sg_len, sg_attr, sg_type, sg_vrp, sg_vrl):
             and self.logical_record_segment_header.length == sg_len[j]
             and self.logical_record_segment_header.attributes.attributes == sg_attr[j]
             and self.logical_record_segment_header.record_type == sg_type[j]
-            and self.visible_record.position == sg_vrp[j] and self.visible_record.length == sg_vrl[j])
+            and self.visible_record.position == sg_vrp[j] and self.visible_record.length == sg_vrl[j]
+            and self.visible_record.version == 65281)
+
+def vr_ri(F, vr):
+    """representation invariant of the reader's visible-record cursor: its fields are what the file holds at its
+    position (established by every read of a visible record; preserved by every public operation)"""
+    return (vr.position >= 0 and vr.position + 4 <= len(F) and be16(F, vr.position) == vr.length
+            and be16(F, vr.position + 2) == 65281 and vr.version == 65281 and 20 <= vr.length and vr.length <= 16384)
 
 def payload(F, j, sg_pos, sg_len, sg_attr):
     return F[sg_pos[j] + 4: sg_pos[j] + 4 + plen(F, sg_pos[j], sg_len[j], sg_attr[j])]
